@@ -1,4 +1,5 @@
 import Asn1cModel.Proofs.PerSupport
+import Asn1cModel.Proofs.PerSmall
 import Asn1cModel.Proofs.OerSupport
 /-
   L1 (UPER / OER primitive layer) property theorems, feeding C01 (round trip), C02 (byte-exact
@@ -7,15 +8,13 @@ import Asn1cModel.Proofs.OerSupport
   Impl  : Impl.BitData (asn_bit_data.c), Impl.PerSupport (per_support.c), Impl.OerSupport (oer_support.c)
   Spec  : Spec.Per (X.691 §10.5–10.9), Spec.Oer (X.696 §8.6)
   Every statement is unbounded (all values / all following bits), no sample-based `decide`.
-  Guarded (`…_partial`) statements exclude exactly the regions of two defects of the unchanged code,
-  each with a counter-example theorem:
-    F29  `uper_put_nsnnwn(n ≥ 64)`   omits the marker bit `1` of X.691 §10.6.2
-    F64  `uper_put_nslength(n > 64)` omits the bit `1` of X.691 §10.9.3.4
-  (in both cases the *reader* is standard-conformant, so writer and reader also disagree with each other).
+  Findings F29 (`uper_put_nsnnwn(n ≥ 64)` omitted the marker bit `1` of X.691 §10.6.2; the reader stopped at
+  two octets) and F64 (`uper_put_nslength(n > 64)` omitted the bit `1` of X.691 §10.9.3.4) are repaired: the
+  statements about the normally small number / length hold on the whole domain of the writers.
 -/
 namespace Asn1c.Props.L1Per
 open Asn1c Asn1c.Impl.BitData Asn1c.Impl.PerSupport Asn1c.Impl.OerSupport
-open Asn1c.Proofs.PerSupport Asn1c.Proofs.OerSupport
+open Asn1c.Proofs.PerSupport Asn1c.Proofs.PerSmall Asn1c.Proofs.OerSupport
 
 /-! ## asn_bit_data.c -/
 
@@ -188,145 +187,80 @@ theorem getLoop_in_bounds {α : Type} (rd : Bits → Option (α × Bits))
 
 /-! ## per_support.c: normally small non-negative whole number (X.691 §10.6) -/
 
-/-- C02 (guarded, F29): for `n ≤ 63` `uper_put_nsnnwn` writes X.691 §10.6.1 -/
-theorem putNsnnwn_eq_spec_partial (n : Nat) (h : n ≤ 63) : putNsnnwn n = some (Spec.Per.normallySmall n) := by
-  rw [putNsnnwn_small n h]
-  unfold Spec.Per.normallySmall Spec.Per.nnbi
-  rw [if_pos h, natBits_cons]
-  congr 2
-  simp; omega
-
-/-- C01 (guarded, F29): `uper_get_nsnnwn` inverts `uper_put_nsnnwn` for `n ≤ 63` -/
-theorem getNsnnwn_putNsnnwn_partial (n : Nat) (rest : Bits) (h : n ≤ 63) :
-    (putNsnnwn n).bind (fun b => getNsnnwn (b ++ rest)) = some (n, rest) := by
-  rw [putNsnnwn_small n h]
-  simp only [Option.bind_some]
-  exact getNsnnwn_small n rest h
-
-/-- F29, every `64 ≤ n < 2^24`: the first bit written is `0` where X.691 §10.6.2 requires the marker `1`,
-    and the reader returns 0 or 1 instead of `n` -/
-theorem putNsnnwn_large_defect (n : Nat) (h1 : 64 ≤ n) (h2 : n < 2 ^ 24) :
-    ∃ b, putNsnnwn n = some (false :: b) ∧ (∃ s, Spec.Per.normallySmall n = true :: s) ∧
-      ∀ rest, ∃ v r, getNsnnwn (false :: b ++ rest) = some (v, r) ∧ v ≤ 1 := by
-  have key : ∀ bytes : Nat, 1 ≤ bytes → bytes ≤ 3 →
-      ∃ b, natBits 8 bytes ++ natBits (8 * bytes) n = false :: b ∧
-        ∀ rest, ∃ v r, getNsnnwn (false :: b ++ rest) = some (v, r) ∧ v ≤ 1 := by
-    intro bytes hb1 hb3
-    refine ⟨natBits 7 bytes ++ natBits (8 * bytes) n, ?_, ?_⟩
-    · rw [natBits_cons]
-      have : (bytes / 2 ^ 7 % 2 == 1) = false := by simp; omega
-      rw [this]; rfl
-    · intro rest
-      have e : false :: (natBits 7 bytes ++ natBits (8 * bytes) n) ++ rest
-          = natBits 7 (bytes / 2) ++ (natBits 1 bytes ++ natBits (8 * bytes) n ++ rest) := by
-        have : bytes = 1 ∨ bytes = 2 ∨ bytes = 3 := by omega
-        rcases this with rfl | rfl | rfl <;> rfl
-      rw [e]
-      unfold getNsnnwn
-      rw [getFewBits_natBits 7 _ _ (by omega)]
-      simp only
-      rw [if_neg (by omega)]
-      exact ⟨_, _, rfl, by omega⟩
-  have hspec : ∃ s, Spec.Per.normallySmall n = true :: s := by
-    unfold Spec.Per.normallySmall; rw [if_neg (by omega)]; exact ⟨_, rfl⟩
-  unfold putNsnnwn
-  norm_num at h2
-  rw [if_neg (by omega)]
-  by_cases c1 : n < 256
-  · rw [if_pos (by omega)]
-    obtain ⟨b, hb, hg⟩ := key 1 (by omega) (by omega)
-    refine ⟨b, ?_, hspec, hg⟩
-    simp only [putFewBits]; ifomega; simp only [Int.toNat_natCast]; rw [hb]
-  · rw [if_neg (by omega)]
-    by_cases c2 : n < 65536
-    · rw [if_pos (by omega)]
-      obtain ⟨b, hb, hg⟩ := key 2 (by omega) (by omega)
-      refine ⟨b, ?_, hspec, hg⟩
-      simp only [putFewBits]; ifomega; simp only [Int.toNat_natCast]; rw [hb]
-    · rw [if_neg (by omega), if_pos (by omega)]
-      obtain ⟨b, hb, hg⟩ := key 3 (by omega) (by omega)
-      refine ⟨b, ?_, hspec, hg⟩
-      simp only [putFewBits]; ifomega; simp only [Int.toNat_natCast]; rw [hb]
-
-/-- F29 witness: 64 is written as `01 40` and read back as 0 -/
-theorem putNsnnwn_64_cex :
-    putNsnnwn 64 = some (bytesToBits [0x01, 0x40]) ∧ getNsnnwn (bytesToBits [0x01, 0x40]) = some (0, bytesToBits [0x01, 0x40] |>.drop 7) := by
-  decide
-
-/-- the *reader* is conformant: it accepts the X.691 §10.6 encoding of every `n < 65536` -/
-theorem getNsnnwn_spec (n : Nat) (rest : Bits) (h : n < 65536) :
-    getNsnnwn (Spec.Per.normallySmall n ++ rest) = some (n, rest) := by
+/-- C02 (finding F29 repaired): `uper_put_nsnnwn` writes exactly X.691 §10.6 for every `n < 2^24`:
+    §10.6.1 (`0` + 6 bits) up to 63, §10.6.2 (the bit `1`, then the semi-constrained whole number
+    with its length octet) from 64 on -/
+theorem putNsnnwn_eq_spec (n : Nat) (h : n < 2 ^ 24) : putNsnnwn n = some (Spec.Per.normallySmall n) := by
   by_cases h63 : n ≤ 63
-  · have := putNsnnwn_eq_spec_partial n h63
-    rw [putNsnnwn_small n h63] at this
-    simp only [Option.some.injEq] at this
-    rw [← this]; exact getNsnnwn_small n rest h63
-  · -- marker, one length octet (1 or 2), the octets
-    have key : ∀ len v : Nat, len = 1 ∨ len = 2 →
-        getNsnnwn (true :: (false :: natBits 7 len ++ natBits (8 * len) v) ++ rest) = some (v % 2 ^ (8 * len), rest) := by
-      intro len v hl
-      have e : true :: (false :: natBits 7 len ++ natBits (8 * len) v) ++ rest
-          = natBits 7 64 ++ (natBits 2 len ++ (natBits (8 * len) v ++ rest)) := by
-        rcases hl with rfl | rfl <;> simp [natBits]
-      rw [e]
-      unfold getNsnnwn
-      rw [getFewBits_natBits 7 _ _ (by omega)]
-      simp only
-      rw [if_pos trivial, getFewBits_natBits 2 _ _ (by omega)]
-      simp only
-      rcases hl with rfl | rfl
-      · norm_num
-        rw [getFewBits_natBits 8 _ _ (by omega)]
-      · norm_num
-        rw [getFewBits_natBits 16 _ _ (by omega)]
-    unfold Spec.Per.normallySmall Spec.Per.semiConstrainedWholeNumber Spec.Per.nnOctets
-    simp only [Int.sub_zero, Int.toNat_natCast]
-    rw [if_neg h63, if_neg (by omega)]
-    by_cases c : n < 256
-    · have ht : toBE n = [n] := by
-        rw [Asn1c.Proofs.BerTlv.toBE_eq_toBEn 0 n (by omega) (by simpa using c)]; simp [toBEn]; omega
-      rw [ht]
-      have := key 1 n (Or.inl rfl)
-      simp only [Nat.mul_one] at this
-      simp only [List.length_cons, List.length_nil, List.map_cons, List.map_nil, Spec.Per.lengthPrefixed,
-        Spec.Per.lengthDetSmall, Spec.Per.nnbi]
-      norm_num
-      norm_num at this
-      rw [Nat.mod_eq_of_lt c] at this
-      exact this
-    · have ht : toBE n = [n / 256, n % 256] := by
-        rw [Asn1c.Proofs.BerTlv.toBE_eq_toBEn 1 n (by omega) (by norm_num; omega)]; simp [toBEn]; omega
-      rw [ht]
-      have := key 2 n (Or.inr rfl)
-      simp only [List.length_cons, List.length_nil, List.map_cons, List.map_nil, Spec.Per.lengthPrefixed,
-        Spec.Per.lengthDetSmall, Spec.Per.nnbi]
-      norm_num
-      norm_num at this
-      rw [Nat.mod_eq_of_lt h, show (16 : Nat) = 8 + 8 from rfl, natBits_split] at this
-      rw [natBits_mod 8 n] 
-      simpa using this
+  · rw [putNsnnwn_small n h63]
+    unfold Spec.Per.normallySmall Spec.Per.nnbi
+    rw [if_pos h63, natBits_cons]
+    congr 2
+    simp; omega
+  · obtain ⟨hb, hlo, hhi⟩ := nsBytes_spec n (by omega) h
+    rw [putNsnnwn_large n _ hb (by omega) hlo hhi, normallySmall_large n _ hb (by omega) hlo hhi]
 
-/-- C04: `uper_get_nsnnwn` stays inside its input; the value fits 16 bits -/
+/-- `uper_put_nsnnwn` refuses negative numbers and everything from 2^24 on ("not a normally small value") -/
+theorem putNsnnwn_rejects (n : Int) (h : n < 0 ∨ 2 ^ 24 ≤ n) : putNsnnwn n = none := by
+  unfold putNsnnwn
+  norm_num at h
+  rcases h with h | h
+  · rw [if_pos (by omega), if_pos h]
+  · rw [if_neg (by omega), if_neg (by omega), if_neg (by omega), if_neg (by omega)]
+
+/-- C01 (finding F29 repaired): `uper_get_nsnnwn` inverts `uper_put_nsnnwn` for every number the writer
+    accepts (`n < 2^24`), whatever follows on the wire -/
+theorem getNsnnwn_putNsnnwn (n : Nat) (rest : Bits) (h : n < 2 ^ 24) :
+    (putNsnnwn n).bind (fun b => getNsnnwn (b ++ rest)) = some (n, rest) := by
+  by_cases h63 : n ≤ 63
+  · rw [putNsnnwn_small n h63]
+    simp only [Option.bind_some]
+    exact getNsnnwn_small n rest h63
+  · obtain ⟨hb, hlo, hhi⟩ := nsBytes_spec n (by omega) h
+    rw [putNsnnwn_large n _ hb (by omega) hlo hhi]
+    simp only [Option.bind_some]
+    rw [getNsnnwn_large _ n rest hb, Nat.mod_eq_of_lt]
+    rw [show (2 : Nat) ^ (8 * nsBytes n) = 256 ^ nsBytes n by rw [Nat.pow_mul]]
+    exact hhi
+
+/-- the former F29 witness: 64 is now written as `1 00000001 01000000` (X.691 §10.6.2) and read back as 64
+    (the unrepaired code wrote `01 40` and read 0) -/
+theorem putNsnnwn_64_repaired :
+    putNsnnwn 64 = some (true :: bytesToBits [0x01, 0x40]) ∧
+    Spec.Per.normallySmall 64 = true :: bytesToBits [0x01, 0x40] ∧
+    getNsnnwn (true :: bytesToBits [0x01, 0x40]) = some (64, []) := by
+  have hp : putNsnnwn ((64 : Nat) : Int) = some (true :: bytesToBits [0x01, 0x40]) := by decide
+  refine ⟨hp, ?_, by decide⟩
+  have := putNsnnwn_eq_spec 64 (by norm_num)
+  rw [hp] at this
+  exact (Option.some.inj this).symm
+
+/-- C03/C02: the reader accepts the X.691 §10.6 encoding of every `n < 2^24` -/
+theorem getNsnnwn_spec (n : Nat) (rest : Bits) (h : n < 2 ^ 24) :
+    getNsnnwn (Spec.Per.normallySmall n ++ rest) = some (n, rest) := by
+  have h1 := putNsnnwn_eq_spec n h
+  have h2 := getNsnnwn_putNsnnwn n rest h
+  rw [h1] at h2
+  simpa using h2
+
+/-- C04: `uper_get_nsnnwn` stays inside its input -/
 theorem getNsnnwn_in_bounds (bs r : Bits) (v : Nat) (h : getNsnnwn bs = some (v, r)) : r <:+ bs :=
   getNsnnwn_suffix h
 
 /-! ## per_support.c: normally small length (X.691 §10.9.3.4) -/
 
-/-- C02 (guarded, F64): for `1 ≤ n ≤ 64` `uper_put_nslength` writes X.691 §10.9.3.4 -/
-theorem putNslength_eq_spec_partial (n : Nat) (h1 : 1 ≤ n) (h : n ≤ 64) :
+/-- C02 (finding F64 repaired): `uper_put_nslength` writes exactly X.691 §10.9.3.4 for every `1 ≤ n < 16384`:
+    `0` + 6 bits of `n - 1` up to 64, the bit `1` followed by the general length determinant above -/
+theorem putNslength_eq_spec (n : Nat) (h1 : 1 ≤ n) (h : n < 16384) :
     putNslength n = some (Spec.Per.normallySmallLength n) := by
-  rw [putNslength_small n h1 h]
-  unfold Spec.Per.normallySmallLength Spec.Per.nnbi
-  rw [if_pos h, natBits_cons]
-  congr 2
-  simp; omega
-
-/-- C01 (guarded, F64): `uper_get_nslength` inverts `uper_put_nslength` for `1 ≤ n ≤ 64` -/
-theorem getNslength_putNslength_partial (n : Nat) (rest : Bits) (h1 : 1 ≤ n) (h : n ≤ 64) :
-    (putNslength n).bind (fun b => getNslength (b ++ rest)) = some (n, rest) := by
-  rw [putNslength_small n h1 h]
-  simp only [Option.bind_some]
-  exact getNslength_small n rest h1 h
+  by_cases h64 : n ≤ 64
+  · rw [putNslength_small n h1 h64]
+    unfold Spec.Per.normallySmallLength Spec.Per.nnbi
+    rw [if_pos h64, natBits_cons]
+    congr 2
+    simp; omega
+  · rw [putNslength_large n (by omega) h, putLength_hdr_small n h]
+    unfold Spec.Per.normallySmallLength; rw [if_neg h64]
 
 /-- `uper_put_nslength` rejects 0 and everything from 16K on -/
 theorem putNslength_rejects (n : Nat) (h : n = 0 ∨ 16384 ≤ n) : putNslength n = none := by
@@ -334,26 +268,11 @@ theorem putNslength_rejects (n : Nat) (h : n = 0 ∨ 16384 ≤ n) : putNslength 
   · rfl
   · exact putNslength_fails n h
 
-/-- F64, every `64 < n < 16384`: `uper_put_nslength` writes the bare length determinant, without the
-    leading bit `1` required by X.691 §10.9.3.4 -/
-theorem putNslength_large_defect (n : Nat) (h1 : 64 < n) (h2 : n < 16384) :
-    putNslength n = some (Spec.Per.lengthDetSmall n) ∧
-    Spec.Per.normallySmallLength n = true :: Spec.Per.lengthDetSmall n := by
-  constructor
-  · rw [putNslength_large n h1 h2, putLength_hdr_small n h2]
-  · unfold Spec.Per.normallySmallLength; rw [if_neg (by omega)]
-
-/-- F64 witness: 65 is written as `0100 0001`; the reader takes the leading 0 for the short form and returns 33 -/
-theorem putNslength_65_cex :
-    putNslength 65 = some [false, true, false, false, false, false, false, true] ∧
-    getNslength [false, true, false, false, false, false, false, true] = some (33, [true]) := by
-  decide
-
-/-- the *reader* is conformant: it accepts the X.691 §10.9.3.4 encoding of every `1 ≤ n < 16384` -/
+/-- the reader accepts the X.691 §10.9.3.4 encoding of every `1 ≤ n < 16384` -/
 theorem getNslength_spec (n : Nat) (rest : Bits) (h1 : 1 ≤ n) (h : n < 16384) :
     getNslength (Spec.Per.normallySmallLength n ++ rest) = some (n, rest) := by
   by_cases h64 : n ≤ 64
-  · have := putNslength_eq_spec_partial n h1 h64
+  · have := putNslength_eq_spec n h1 h
     rw [putNslength_small n h1 h64] at this
     simp only [Option.some.injEq] at this
     rw [← this]; exact getNslength_small n rest h1 h64
@@ -364,6 +283,22 @@ theorem getNslength_spec (n : Nat) (rest : Bits) (h1 : 1 ≤ n) (h : n < 16384) 
     rw [e, getFewBits_natBits 1 1 _ (by omega)]
     simp only
     rw [if_neg (by decide), getLength_putLength_small n rest h]
+
+/-- C01 (finding F64 repaired): `uper_get_nslength` inverts `uper_put_nslength` for every length the writer
+    accepts (`1 ≤ n < 16384`), whatever follows on the wire -/
+theorem getNslength_putNslength (n : Nat) (rest : Bits) (h1 : 1 ≤ n) (h : n < 16384) :
+    (putNslength n).bind (fun b => getNslength (b ++ rest)) = some (n, rest) := by
+  rw [putNslength_eq_spec n h1 h]
+  simp only [Option.bind_some]
+  exact getNslength_spec n rest h1 h
+
+/-- the former F64 witness: 65 is now written as `1 01000001` (X.691 §10.9.3.4) and read back as 65
+    (the unrepaired code wrote `01000001`, read back as 33) -/
+theorem putNslength_65_repaired :
+    putNslength 65 = some [true, false, true, false, false, false, false, false, true] ∧
+    Spec.Per.normallySmallLength 65 = [true, false, true, false, false, false, false, false, true] ∧
+    getNslength [true, false, true, false, false, false, false, false, true] = some (65, []) := by
+  decide
 
 theorem getNslength_in_bounds (bs r : Bits) (v : Nat) (h : getNslength bs = some (v, r)) : r <:+ bs :=
   getNslength_suffix h
